@@ -171,12 +171,53 @@ class Runner:
         elif kind == "rng_draw":
             self.perturb_count += 1
             np.random.default_rng(step["seed"]).uniform(size=step["k"])
+        elif kind == "failed_call":
+            self.perturb_count += 1
+            self._failed_call(step)
         else:
             raise ValueError(kind)
         # no re-execution right after an unseeded API call: whatever that call left behind in a model object must be
         # what the NEXT step meets (re-executing remembered calls first would reset such state and hide its effect)
         if kind != "unseeded":
             self._invariant()
+
+    def _failed_call(self, step):
+        """A library call that fails (the caller passed something invalid, or one of its own callables raised), with a seed:
+        an error is part of the history too, and must leave nothing behind in the model objects or the module."""
+        import sempler.generators as gens
+        import sempler.utils as utils
+        seed, which, fx = step["seed"], step["which"], step["fx"]
+
+        def boom(*a, **k):
+            raise RuntimeError("the caller's callable raises")
+        try:
+            if which == "anm":
+                m = self.anm[fx % len(self.anm)]
+                kw = [dict(do_interventions={m.p - 1: boom}, noise_interventions={0: self.noise.normal(5, 1)}),
+                      dict(do_interventions={0: self.noise.uniform(3, 4), m.p - 1: boom}),
+                      dict(shift_interventions={0: self.noise.normal(1, 1)}, noise_interventions={m.p - 1: boom}),
+                      # a pool that cannot serve n draws: the error comes from numpy, inside the library's loop
+                      dict(do_interventions={m.p - 1: lambda n: np.random.choice(np.arange(20.0), n, replace=False)})][step["variant"] % 4]
+                m.sample(50, random_state=seed, **kw)
+            elif which == "lganm":
+                m = self.lganm[fx % len(self.lganm)]
+                kw = [dict(do_interventions={0: (1, 1), 10 ** 6: (0, 1)}), dict(shift_interventions={0: (1, 1), 10 ** 6: (0, 1)}),
+                      dict(noise_interventions={0: (1, 1)}, do_interventions={m.p - 1: "bad"}), dict()][step["variant"] % 4]
+                m.sample(-3 if step["variant"] % 4 == 3 else 5, random_state=seed, **kw)
+            elif which == "normal":
+                self.normal[fx % len(self.normal)].sample(-3, random_state=seed)
+            elif which == "split":
+                bad = [dict(ratios=[float("nan")]), dict(ratios=[0.5, 0.6])][step["variant"] % 2]
+                utils.split_data(self.data[fx % len(self.data)] + ([None] if step["variant"] % 4 == 2 else []), random_state=seed,
+                                 **(bad if step["variant"] % 4 != 2 else dict(ratios=[0.5, 0.5])))
+            elif which == "gens":
+                [lambda: gens.dag_full(6.5, random_state=seed), lambda: gens.dag_avg_deg(5.5, 2, random_state=seed),
+                 lambda: gens.intervention_targets(5, 2, (1, 2, 3), random_state=seed),
+                 lambda: gens.intervention_targets(5, 9, 3, replace=False, random_state=seed)][step["variant"] % 4]()
+            else:
+                utils.remove_edges(self.dags[fx % len(self.dags)], 10 ** 6, random_state=seed)
+        except Exception:                # noqa: BLE001 - the failing call's own outcome is not judged
+            pass
 
     def _seeded(self, step):
         # the way the seed is held / passed (Python int, numpy integer, positionally) is not part of the key: all of them
@@ -270,6 +311,8 @@ def perturb_step():
         st.fixed_dictionaries({"kind": st.just("np_seed"), "seed": st.sampled_from([0, 1, 12345]) | st.integers(0, 2 ** 32 - 1)}),
         st.fixed_dictionaries({"kind": st.just("np_draw"), "k": st.integers(1, 9)}),
         st.fixed_dictionaries({"kind": st.just("rng_draw"), "seed": st.integers(0, 99), "k": st.integers(1, 5)}),
+        st.fixed_dictionaries({"kind": st.just("failed_call"), "which": st.sampled_from(["anm", "anm", "lganm", "normal", "split", "gens", "edges"]),
+                               "fx": st.integers(0, 3), "variant": st.integers(0, 3), "seed": SEEDS}),
     )
 
 
